@@ -72,6 +72,44 @@ def run_graph(ctx, models, n_orders=3, repeat=3, label="models", order_repeat=1)
     return out
 
 
+def coq_spec_check(ctx, results, report=True):
+    """The theorem of Proofs/DagWeights.v says: if dag_check holds for the model's graph and weight assignment
+    succeeds, every relation node carries Spec/GraphWeights.spec_weights — for every start order.  Here the
+    extracted specification is evaluated (op 502) and compared with what the IMPLEMENTATION stored, per order:
+    the theorem's conclusion observed on the real code, and its hypothesis measured (how many generated models
+    are inside the theorem's domain)."""
+    rs = [r for r in results if r is not None]
+    try:
+        specs = ctx.model(FAM, ["(502 %s)" % sexp.enc(r["m"]) for r in rs])
+    except core.ModelUnavailable:
+        return
+    for r, sp in zip(rs, specs):
+        if sp is None or not sp or sp[0] != 1:
+            ctx.count("theorem_dag_not_applicable")
+            continue
+        ctx.count("theorem_dag_applicable")
+        want = {T(x[0]): dict((T(k), v) for k, v in x[1]) for x in sp[1]}
+        for (o, a, b) in r["ordered"]:
+            if b is not None and b[0] == "ok":
+                for nid, w in want.items():
+                    got = dict(b[1]["nodes"].get(nid, {}).get("weights", []))
+                    if got != w:
+                        raise RuntimeError("the extracted model contradicts the theorem dag_weights on %r node %s: %r vs %r"
+                                           % (r["m"], nid, got, w))
+            if a[0] != "ok":
+                ctx.count("theorem_dag_impl_rejects")
+                continue
+            ctx.count("theorem_dag_orders_compared")
+            for nid, w in want.items():
+                got = dict(a[1]["nodes"].get(nid, {}).get("weights", []))
+                if got != w and report:
+                    ctx.violation("weights-differ-from-proved-spec",
+                                  {"model": r["m"], "order": o, "node": nid, "impl_weights": got, "spec_weights": w,
+                                   "why": "on a model without cycles the implementation stores weights other than Spec/GraphWeights.spec_weights, "
+                                          "which Model/WWeights.assign_weights is proved to compute for every start order"})
+                    break
+
+
 def describe(m):
     """a model as DSL-like text when printable, for replays and samples"""
     return m
